@@ -455,6 +455,7 @@ def table_o_shape(facts, rep, rule, w):
                                     if x[0] == "call" and isinstance(x[1], str) and short(x[1]) in (
                                             "fs::metadata", "Path::metadata", "Path::is_dir", "Metadata::is_dir", "fs::symlink_metadata"):
                                         by_stat = True
+                        by_stat = by_stat or _stat_switch(tr, cb, blk.idx)
                         kinds[v] = (by_stat and has_is_dir, st.line)
             # ... or inside a private helper that is handed the probe's answer (`exists_kind(is_dir)`): its conditions, with the
             # helper's parameters replaced by what the call passes
@@ -479,8 +480,11 @@ def table_o_shape(facts, rep, rule, w):
                                             if x[0] == "call" and isinstance(x[1], str) and short(x[1]) in (
                                                     "fs::metadata", "Path::metadata", "Path::is_dir", "Metadata::is_dir", "fs::symlink_metadata"):
                                                 by_stat = True
+                                h_is_dir = has_is_dir or any(s2.short in ("Metadata::is_dir", "Path::is_dir", "FileType::is_dir")
+                                                             for c2 in inter.code_bodies(hb) for s2 in inter.sites(c2))
+                                by_stat = by_stat or _stat_switch(htr, hcb, blk.idx)
                                 if v not in kinds or not kinds[v][0]:
-                                    kinds[v] = (by_stat and has_is_dir, st.line)
+                                    kinds[v] = (by_stat and h_is_dir, st.line)
         # the probe only classifies: if it fails itself (dangling symlink, occupant removed meanwhile) the answer is still an
         # "exists" kind, never the probe's own error
         escaping = []
@@ -504,6 +508,21 @@ def table_o_shape(facts, rep, rule, w):
                    "under a test of the occupant's metadata().is_dir()" if ok else
                    "AlreadyExists is not classified by the occupant's type", kinds.get(v, (0, b.span))[1])
     return n
+
+
+def _stat_switch(tr, cb, bb):
+    """a branch that dominates block bb tests a local holding the probe's answer in every arm that computes one
+    (`let is_dir = match fs::metadata(p) { Ok(m) => m.is_dir(), Err(_) => false }; if is_dir {..}`)"""
+    for (s, d, label) in tr.cfg.dominating_edges(bb):
+        t = cb.blocks[s].term
+        if label is None or t.kind != "switch" or t.discr is None:
+            continue
+        for term, gs in tr.operand_cases(t.discr):
+            for x in list(walk(term)) + [y for g in gs if len(g) > 1 and isinstance(g[1], tuple) for y in walk(g[1])]:
+                if x[0] == "call" and isinstance(x[1], str) and short(x[1]) in (
+                        "fs::metadata", "Path::metadata", "Path::is_dir", "Metadata::is_dir", "fs::symlink_metadata"):
+                    return True
+    return False
 
 
 def mkdir_not_asked(facts, rep, rule, w, D):
